@@ -26,11 +26,23 @@ func checkC09(c *Ctx, r *Report) {
 	r.Explanation = "Only two structural clauses: (E9) every function in every package that changes the length-defining member of a sample table " +
 		"(stsc Entries, stts counts/deltas, ctts EndSampleNr/SampleOffset, stsz SampleSize, …) also updates the cached / parallel members (a stale cache makes every binary-search query wrong); " +
 		"(W-NARROW) in the sample-table query and crop code no product of two non-constant 32-bit values is computed in 32 bits and only then widened to 64 bits (times and offsets wrap). " +
-		"The index arithmetic of the queries themselves (binary searches, run-length walks, interval-to-chunk mapping) is NOT decided."
+		"(DEP) GetContainingChunks looks the stsc entry up per chunk (loop-variant index), the stss box decides sync status whenever present (also when empty); (O-INDEP) first-chunk and last-chunk clipping in GetRangesForSampleInterval are independent; (G3) a result slice made for an interval is indexed below the length it was made with, for every interval the entry tests allow (linear comparison of the largest index and the length). The index arithmetic of the queries themselves (binary searches, run-length walks, interval-to-chunk mapping) is NOT decided."
 	ruleCoherence(c, r, map[string]bool{"StscBox": true, "SttsBox": true, "CttsBox": true, "StszBox": true})
 	ruleNarrowMul(c, r, "W-NARROW", sampleTableScope)
 	r.RuleCounts["W-NARROW"] += 0
 	r.Floor("E9", 8)
+	// G3: per-interval result slices are indexed inside their length
+	qs := map[*ssa.Function]bool{}
+	for _, f := range c.RepoFuncs(IsLib) {
+		if sampleTableScope(f) && f.Synthetic == "" {
+			qs[f] = true
+		}
+	}
+	ruleG3(c, r, qs, 0)
+	ruleChunkEntryWalk(c, r)
+	ruleStssPresence(c, r)
+	ruleIndependentEnds(c, r, "O-INDEP", func(f *ssa.Function) bool { return strings.HasPrefix(SSAFuncName(f), "mp4.") }, 1)
+	ruleG3Lin(c, r, qs)
 }
 
 // C10 — cropping yields a prefix of every track (narrow clauses).
@@ -41,5 +53,7 @@ func checkC10(c *Ctx, r *Report) {
 	ruleCoherence(c, r, map[string]bool{"StscBox": true, "SttsBox": true, "CttsBox": true, "StszBox": true})
 	ruleNarrowMul(c, r, "W-NARROW", sampleTableScope)
 	ruleCropCases(c, r)
+	ruleCropCounts(c, r)
+	ruleNoMdatHeaderConstant(c, r, "W-MDATHDR")
 	r.Floor("E9", 8)
 }
